@@ -49,7 +49,9 @@ CHECKS = {
    text="Coq theorems over ALL envs, classes, reader states / byte strings (Properties/C03.v): every reader state a deserializer reaches satisfies the invariant 0<=chunk start<=pos<=len "
         "with a valid break cache and is over the same data; every primitive read is a slice at the position bounded by remaining; on a well-formed class (decidable wf_class, evaluated "
         "for every elaborated tree) the ONLY errors are the negative-length ValueError or fuel exhaustion; optional fields are absent exactly when nothing remains; enum ordinals are preserved; "
-        "exhausted reads give 0/empty. Termination for every accepted spec is NOT proved (the generator accepts a non-progressing shape: known finding F4); the model reports EFuel there. "
+        "exhausted reads give 0/empty. Termination (Properties/C03T.v): progress_okT E cls mode (decidable, evaluated per class on every run; refuses only the F4 shape on all generated trees) implies the "
+        "deserializer never runs out of fuel, hence with wf_class the only possible failure is the documented ValueError; delimited loops always terminate (chunk start strictly advances). Termination for EVERY accepted "
+        "spec is false (known finding F4: the model returns EFuel, the code hangs). "
         "Tie: generated deserializers vs model on valid serializations, every prefix, 0x00/0xFE/0xFF-biased edits, junk, random bytes, both entry modes.",
    technique="Coq proof (reader invariant preserved through the deserializer semantics, error-kind analysis under a decidable well-formedness check) + differential correspondence on hostile bytes",
    note=GEN_NOTE + "'Deserializations whose hostile length fields make CPython loop thousands of times are checked by the oracle but excluded from the in-Coq evaluation (marked heavy).", ref="8 (C03)"),
